@@ -98,7 +98,7 @@ static const item *PFX;
 static int         pfx_pos;
 static long        clock_calls;
 int                vs_atomic_points;
-int                vs_unlock_points;
+int                vs_unlock_points = 1;
 int                vs_io_points;
 int                vs_io_maxclamp = 8;
 int                vs_io_eagain;
@@ -1524,6 +1524,8 @@ vx_init(int argc, char **argv, const char *prop)
 	G.exhaustive     = 1;
 	G.determinism_ok = 1;
 	G.t0             = wall();
+	if (getenv("VS_UNLOCK_POINTS")) // experiment switch: default for all scenarios
+		vs_unlock_points = atoi(getenv("VS_UNLOCK_POINTS"));
 	double dl        = -1;
 	for (int i = 1; i < argc; i++) {
 		if (!strcmp(argv[i], "--tier") && i + 1 < argc)
